@@ -80,6 +80,10 @@ def run_shard(args):
         ctx.rec.hit('shards-whose-data-directory-name-has-special-characters')
     if os.environ.get('SPOWTD_VERIF_OPTIMIZE') == '1':
         ctx.rec.hit('shards-run-with-assert-statements-of-spowtd-compiled-away')
+    if os.environ.get('SPOWTD_VERIF_PRINTOPTIONS') == 'legacy':
+        import numpy
+        numpy.set_printoptions(legacy='1.13', precision=4)
+        ctx.rec.hit('shards-run-with-numpy-print-options-changed-by-the-caller')
     if os.environ.get('SPOWTD_VERIF_WARNINGS') == 'error':
         # a caller who runs with warnings as errors (python -W error): RuntimeWarnings attributed to
         # spowtd's own modules are raised (the harness and the libraries keep the default)
@@ -167,6 +171,9 @@ def run_tier(args):
         if nshards > 1 and i == nshards - 1:
             # the last shard runs spowtd compiled as `python -O` would (assert statements dropped)
             env['SPOWTD_VERIF_OPTIMIZE'] = '1'
+        if nshards > 1 and i == 0:
+            # the first shard runs like a session in which the caller changed numpy's print options
+            env['SPOWTD_VERIF_PRINTOPTIONS'] = 'legacy'
         if nshards > 1 and i == 1:
             # the second shard runs like a caller with warnings as errors (see run_shard)
             env['SPOWTD_VERIF_WARNINGS'] = 'error'
